@@ -104,6 +104,8 @@ def render_block(stmts, ind: str, out: list[str]) -> None:
             out.append(f"{ind}{s[1]} = ({pl(s[2])}, {pl(s[3])})")
         elif k == "alloctuple":
             out.append(f"{ind}{s[1]} = (qubit(), qubit())")
+        elif k == "allocstruct":
+            out.append(f"{ind}{s[1]} = QP(qubit(), qubit())")
         elif k == "unpack":
             out.append(f"{ind}{pl(s[1])}, {pl(s[2])} = {s[3]}")
         elif k == "ownpair":
@@ -235,7 +237,7 @@ class OLin:
                 if lf in st:
                     raise Reject("overwrite-leaks")
             return st | set(self._leaves_of(var))
-        if k == "alloctuple":
+        if k in ("alloctuple", "allocstruct"):
             if s[1] in self.borrowed:
                 raise Reject("shadow-borrowed")
             for lf in self._leaves_of(s[1]):
@@ -573,7 +575,7 @@ def mutate(fn: Fn, rng: random.Random) -> str:
     blocks = [b for b in all_blocks(fn.body)]
     leaves = fn.leaves()
     kind = rng.choice(["delete", "duplicate", "replace_place", "swap_kind", "guard", "insert_consume",
-                       "insert_alloc", "insert_borrow", "insert_move"])
+                       "insert_alloc", "insert_borrow", "insert_move", "insert_alloc_composite"])
     b = rng.choice(blocks)
     simple = [i for i, s in enumerate(b) if s[0] not in ("if", "while", "break", "continue", "return")]
     if kind == "delete" and simple:
@@ -613,6 +615,17 @@ def mutate(fn: Fn, rng: random.Random) -> str:
         b.insert(rng.randint(0, len(b)), ("borrow", [rng.choice(leaves) for _ in range(k)], False))
     elif kind == "insert_move":
         b.insert(rng.randint(0, len(b)), ("move", rng.choice(leaves), rng.choice(leaves)))
+    elif kind == "insert_alloc_composite":
+        # overwrite a whole struct / tuple (variable or owned parameter) with a fresh one; once or,
+        # to hit "assigned and overwritten in the same block", twice in a row
+        roots = fn.svars + fn.tvars + [n for n, k, _ in fn.params if k == "QP"]
+        if roots:
+            rt = rng.choice(roots)
+            st = ("alloctuple", rt) if rt in fn.tvars else ("allocstruct", rt)
+            i = rng.randint(0, len(b))
+            b.insert(i, st)
+            if rng.random() < 0.5:
+                b.insert(i, st)
     return kind
 
 
